@@ -9,9 +9,13 @@ CLAIM = {
          "through a scripted select) and on the real switch-side IOWorker/RecocoIOWorker (send, send_fast, _do_send); every socket call's outcome is "
          "symbolic (accept k of n bytes with symbolic k, EAGAIN, fatal error) and the interleaving of further sends with flush rounds is a symbolic "
          "selector. On every path z3 proves the accepted bytes are a prefix of - and at quiescence equal to - the concatenation of the queued messages, "
-         "that nothing is written after a fatal error and that the close notification fires exactly once.",
- 'note': "Trusted: CPython, z3, symx proxies/shims, scripted socket/select (props/env.py). DeferredSender is exercised at lock granularity "
-         "(both Connection.send's hand-off and a flush round run under its lock); finer thread interleavings are outside the claim.",
+         "that nothing is written after a fatal error and that the close notification fires exactly once. O3_threads: the cooperative thread calling "
+         "Connection.send() for 3 messages and the DeferredSender thread running its real run() loop are real threads run one source statement of "
+         "of_01.py at a time; the interleaving is a solver variable, every schedule with at most 1 (thorough 2) preemptions is explored for 5 concrete "
+         "short-write / EAGAIN socket scripts: accepted stream == queued stream in order, no deadlock, nothing left unflushed.",
+ 'note': "Trusted: CPython, z3, symx proxies/shims, scripted socket/select (props/env.py). O1 exercises DeferredSender at lock granularity; O3 at "
+         "source-statement granularity with RLock/select/waker models (props/ilv.py) under the stated preemption bound; interleavings inside one statement, more "
+         "preemptions, and fatal errors during threaded flushing are outside the claim.",
 }
 EXPLANATION = ("Real Connection.send / DeferredSender.send,_sliceup,run and IOWorker.send,_do_send,_consume_send_buf / RecocoIOWorker.send,send_fast "
                "executed with symbolic message bytes and symbolic socket outcomes; stream-prefix and close-once assertions decided by z3 per path.")
